@@ -50,7 +50,32 @@ def load():
         raise RuntimeError('hotxlfp imported from %s, not from the snapshot %s' % (here, tmp))
     _STATE['mod'] = hotxlfp
     _STATE['dir'] = tmp
+    _settle_tables(hotxlfp)
     return hotxlfp
+
+
+def _settle_tables(hotxlfp):
+    """Build one parser in the parent process before any worker is forked.
+
+    ply (re)generates parser_FormulaParser_parsetab.py next to the grammar when the file is missing (it is a
+    generated, git-ignored file: a fresh checkout has none) or when its signature does not match the grammar
+    (an edited precedence table).  Sixteen workers doing that at once would race on the file.  After the first
+    construction the possibly stale table module is dropped and a second parser imports the file just written,
+    so that every later construction - here and in the forked workers - finds a matching table and writes nothing.
+    """
+    import importlib
+    import logging
+    try:
+        hotxlfp.Parser()
+    except Exception:
+        return          # a tree whose grammar does not build is reported by the checks themselves
+    for name in [m for m in sys.modules if m.endswith('_parsetab') and m.startswith('hotxlfp.')]:
+        del sys.modules[name]
+    importlib.invalidate_caches()
+    try:
+        hotxlfp.Parser()
+    except Exception:
+        pass
 
 
 def directory():
